@@ -198,6 +198,7 @@ func init() {
 				p.MinMembers = 3
 				p.PBlock = 0.35
 				p.PFocus = 0.4
+				p.PEndgame = 0.12
 				p.BlockOps = []string{"entity_add", "entity_delete", "custom", "comp_add", "comp_delete", "comp_update", "pose", "type_add", "subscribe", "unsubscribe", "action", "asset_add", "joiner", "close", "switch", "quad_sample", "get_region", "comp_list"}
 			})
 			r := simrt.NewRand(seed, "c09")
